@@ -148,37 +148,7 @@ def run(ck, ix, tier):
              "the count is used as given (n=0 removes nothing, None removes all)",
              f"`{norm(rebound[0]) if rebound else ''}` rewrites the requested count before slicing (a falsy 0 must not become 'all')")
 
-    # an overlay stored under the chain key before its redefinitions are applied must not be reused by a later activation
-    fi = ix.func(CR, "GenericContextRegistry._switch_context_cache_and_units")
-    cfg = cfg_of(fi)
-    redef = nodes_calling(cfg, "_redefine")
-    hits = [n.id for n in cfg.nodes if n.kind == "stmt" and isinstance(n.ast, ast.Assign) and any(dotted(t) == "self._cache" for t in n.ast.targets)
-            and "self._caches[" in norm(n.ast.value) and norm(n.ast.value) != "self._caches[()]"]
-    stores = [n.id for n in cfg.nodes if n.kind == "stmt" and isinstance(n.ast, ast.Assign) and any(isinstance(t, ast.Subscript) and dotted(t.value) in ("self._caches", "self._context_units") for t in n.ast.targets)]
-    reuse = None
-    for h in hits:
-        # a normal path from the cache hit to the exit that does not rebuild (re-store) the overlay = reuse
-        pth = memo._normal_path(cfg, h, stores)
-        if pth:
-            reuse = pth
-    if reuse is None:
-        ck.ok("G-PAIR", "switch|cached-overlay-never-reused-without-rebuild", fi.loc(), "a cache hit still rebuilds the overlay (no reuse of stored overlays)")
-    else:
-        evict = nodes_with(cfg, lambda x: (isinstance(x, ast.Call) and call_name(x) == "pop" and ("_caches" in norm(x.func) or "_context_units" in norm(x.func))) or
-                           (isinstance(x, ast.Delete) and ("_caches[" in norm(x) or "_context_units[" in norm(x))))
-        bad = None
-        for st in stores:
-            if st in cfg.reach([cfg.entry]):
-                # can a redefinition fail after the store and leave the entry behind?
-                for r in redef:
-                    if r in cfg.reach([st]):
-                        pth = cfg.path(r, [cfg.rexit], avoid=set(evict))
-                        if pth:
-                            bad = pth
-        ck.check(bad is None, "G-PAIR", "switch|cached-overlay-never-reused-without-rebuild", fi.loc(cfg.nodes[reuse[0]].ast),
-                 "stored overlays are evicted when their construction fails",
-                 "the overlay is stored under the chain key before its redefinitions are applied and a later activation reuses it without rebuilding: after a failed activation the same invalid context activates silently with a half-built overlay",
-                 witness(cfg, bad))
+    memo.rule_overlay_not_reused(ck, ix)
 
     # ------------------------------------------------------------ (c) the switch + overlays, (d) memos depending on them
     memo.rule_context_overlay(ck, ix)
